@@ -95,5 +95,58 @@ Definition handle (r : request) : hres :=
   | EWatch _ _ => HRun 0
   end.
 
+(* ---------- what List / Range do with the client's limit ----------
+   backend.List (range.go): `limit := r.Limit; if limit > 0 { limit++ }` in int64 arithmetic, then
+   scanner.Range: `if limit > 0 { rangeWithLimit(... limit) }` else the unlimited scan; the response
+   is cut to r.Limit entries with More = true when the scan returned more than r.Limit.
+   So limit = MaxInt64 overflows to MinInt64 and takes the unlimited path, and a negative limit is
+   unlimited as well. *)
+Definition max_int64 : Z := 9223372036854775807.
+Definition min_int64 : Z := (-9223372036854775808)%Z.
+Definition wrap64 (z : Z) : Z := (((z + 9223372036854775808) mod 18446744073709551616) - 9223372036854775808)%Z.
+
+Inductive limit_mode :=
+| Unlimited
+| Limited (n : Z).     (* the scanner's receiver stops after n results (n = client limit + 1) *)
+
+Definition list_limit (client_limit : Z) : limit_mode :=
+  let l := if (client_limit >? 0)%Z then wrap64 (client_limit + 1) else client_limit in
+  if (l >? 0)%Z then Limited l else Unlimited.
+
+(* capacity a scan asks for before it has seen a single result: rangeWithLimit's receiver starts with a
+   nil slice and worker.run's receiver.reset() re-makes it with the *previous attempt's length* (0);
+   the unlimited scan forks receivers with make(.., 0, c.limit) where c.limit = 0.  The client's limit
+   is never used as an allocation size. *)
+Definition scan_prealloc (m : limit_mode) (previous_len : N) : N :=
+  match m with
+  | Limited _ => previous_len
+  | Unlimited => 0
+  end.
+
+(* a list response (number of kvs, More) is consistent with the limit *)
+Definition list_response_ok (client_limit : Z) (count : Z) (more : bool) : bool :=
+  match list_limit client_limit with
+  | Unlimited => negb more
+  | Limited _ => (count <=? client_limit)%Z && (negb more || (count =? client_limit)%Z)
+  end.
+
+(* which requests reach backend.List, and with which limit *)
+Definition list_limit_of (r : request) : option Z :=
+  match r with
+  | BRange k e _ limit => if empty k || empty e then None else Some limit
+  | ERange k e rev limit count_only =>
+      if empty e || (rev =? 1888)%Z || count_only then None else Some limit
+  | _ => None
+  end.
+
+(* ---------- the etcd watch server's cancel responses ----------
+   watch.go: a WatchCancelRequest makes the stream loop call w.Cancel(id, nil, false), which sends a
+   Canceled response (CompactRevision = 0); cancelling the watch's context then ends the watch
+   goroutine, which calls w.Cancel(id, nil, false) once more and sends a second one.  A watch that ends
+   without a client cancel request gets exactly one.  A range stream (negative start revision) sends
+   none when it ends. *)
+Definition watch_cancel_responses (pure_watch client_cancelled : bool) : N :=
+  (if client_cancelled then 1 else 0) + (if pure_watch then 1 else 0).
+
 (* backend.Update called directly with a nil Kv panics: the guard in the handler is what prevents it *)
 Definition handle_unguarded_update (kvp : bool) : hres := backend_update kvp.
